@@ -110,11 +110,13 @@ def degeneric(s):
 class Graph(object):
     """A (possibly flag-refined) view of a body's CFG. Nodes are ints; node_bb maps to MIR blocks."""
 
-    def __init__(self, body, flags=None, init=None, pinned=None, hook=None):
+    def __init__(self, body, flags=None, init=None, pinned=None, hook=None, callhook=None, swhook=None):
         self.body = body
         self.flags = list(flags or [])
         self.pinned = dict(pinned or {})
         self.hook = hook     # hook(bb, stmt_index, stmt) -> bool | None: value of a non-constant flag definition
+        self.callhook = callhook   # callhook(bb, term) -> bool | None: value of a call result stored in a flag
+        self.swhook = swhook       # swhook(bb) -> iterable of allowed target blocks | None
         self.node_of = {}
         self.nodes = []      # (bb, valuation)
         self.succ = []
@@ -137,6 +139,8 @@ class Graph(object):
                         and s.rv.ops[0].place.is_local() and s.rv.ops[0].place.local in self.flags:
                     x = val[self.flags.index(s.rv.ops[0].place.local)]
                     b = None if x is None else (not x)
+                if b is None and s.rv.k == "agg" and s.rv.j.get("ak") == "adt" and "vidx" in s.rv.j:
+                    b = ("tag", s.rv.j["vidx"])     # enum-typed flag: remember which variant was stored
                 if b is None and self.hook is not None:
                     b = self.hook(blk.idx, si, s)
                 if b is None and s.place.local in self.pinned:
@@ -144,7 +148,7 @@ class Graph(object):
                 val[i] = b
         t = blk.term
         if t.kind == "call" and t.dest is not None and t.dest.is_local() and t.dest.local in self.flags:
-            val[self.flags.index(t.dest.local)] = None
+            val[self.flags.index(t.dest.local)] = self.callhook(blk.idx, t) if self.callhook is not None else None
         return tuple(val)
 
     def _switch_flag(self, blk):
@@ -166,6 +170,8 @@ class Graph(object):
                     break
             if d is None:
                 return None
+            if d.rv.k == "discr" and d.rv.place is not None and d.rv.place.is_local() and d.rv.place.local in self.flags and not neg:
+                return (self.flags.index(d.rv.place.local), "tag")
             if d.rv.k == "use" and d.rv.ops[0].place is not None and not d.rv.ops[0].place.is_local():
                 pl = d.rv.ops[0].place
                 fs = pl.fields()
@@ -204,7 +210,14 @@ class Graph(object):
             if sf is not None:
                 fi, neg = sf
                 v = out_val[fi]
-                if v is not None:
+                if neg == "tag":
+                    if isinstance(v, tuple) and v[0] == "tag":
+                        t = blk.term
+                        keep = [tb for value, tb in t.arms if value == v[1]]
+                        if not keep:
+                            keep = [t.otherwise]
+                        targets = keep
+                elif v is not None and not isinstance(v, tuple):
                     truth = (not v) if neg else v
                     t = blk.term
                     keep = []
@@ -218,6 +231,11 @@ class Graph(object):
                     if (not truth) and 0 not in arm_vals:
                         keep.append(t.otherwise)
                     targets = keep
+            if self.swhook is not None and blk.term.kind == "switch":
+                allowed = self.swhook(bb)
+                if allowed is not None:
+                    allowed = set(allowed)
+                    targets = [tb for tb in targets if tb in allowed]
             for tb in targets:
                 key = (tb, out_val)
                 m = self.node_of.get(key)
